@@ -856,7 +856,7 @@ def run_desc(mp, rec, desc, hook=None):
                     rec.maximum('log2 err/(2^-p max(1,|V|)) inside envelope [%s]' % rule, units, case)
             elif verdict == 'violated':
                 if v_in:
-                    rec.violation(mech_key(desc, 'accuracy' if var in ('base', 'tuple', 'alias', 'error', 'maxdegree') else var),
+                    rec.violation(classify(mp, desc, f, intervals(pl, tup=(var == 'tuple')), rule, api, kw, var),
                                   'integral off by 2^%.1f * 2^-p * max(1,|V|) (allowed 2^%d) [%s]' % (units, TOL, var),
                                   case, observed=Q.show(v), expected=('-(%s)' % expect) if negate else expect,
                                   severity=round(min(units, 1e6), 1))
@@ -889,6 +889,27 @@ def run_desc(mp, rec, desc, hook=None):
         mp.prec = old
         if hook is not None:
             hook.current = None
+
+
+def classify(mp, desc, f, ivs, rule, api, kw, var):
+    """mechanism key of an accuracy violation: did the error estimator accept the result (estimate <= eps/8, the
+    documented stopping rule of summation()) although it is off, or did quad run out of degrees and say so?"""
+    pts = desc['ivs'][0]
+    rng = 'infinite' if any(isinstance(x, str) for x in pts) else ('complex-path' if any(
+        isinstance(x[0], (list, tuple)) for x in pts) else 'finite')
+    rl = 'tanh-sinh' if rule == 'ts' else 'gauss-legendre'
+    dim = len(desc['ivs'])
+    try:
+        kw = dict(kw); kw['error'] = True
+        v, est = _call(mp, f, ivs, rule, api, kw)
+        accepted = est <= mp.eps / 8
+    except Exception:
+        accepted = None
+    if accepted:
+        return 'C26/estimate_error/accepted-early/%s/%s/dim%d' % (rl, rng, dim)
+    if accepted is None:
+        return mech_key(desc, 'accuracy')
+    return 'C26/not-converged-at-maxdegree/%s/%s/dim%d/%s' % (rl, rng, dim, desc['f'][0]['fam'])
 
 
 def _split_inside(fams, desc, rule):
@@ -1087,15 +1108,25 @@ def gen_case(r, cell, p, idx):
         else:
             a, b = _interval(r)
         L = math.sqrt(float(Q.cabs2(Q.csub(pt(a), pt(b)))))
-        zmax = 40.0 / L if kind != 'fast-rate' else 200.0 / L
-        zmin = 1.0 / 16 if kind != 'fast-rate' else 41.0 / L
-        while True:
-            k = rd(r, -min(zmax, 30), min(zmax, 30), 4) if E in ('exp', 'expcos', 'expsin', 'cexp') else [0, 0]
-            w = rd(r, -min(zmax, 50), min(zmax, 50), 4) if E != 'exp' else [0, 0]
-            zz = math.hypot(float(Q.dy(k)), float(Q.dy(w)))
-            if zmin <= zz and zz * L <= zmax * L and (kind == 'fast-rate' or zz * L <= 40) and (E == 'exp' or w[0]) and \
-                    (E in ('cos', 'sin') or k[0]):
-                break
+        if kind != 'fast-rate':
+            zlo, zhi = 1.0 / 16, min(39.5 / L, 32.0)
+        else:
+            zlo, zhi = 41.0 / L, 200.0 / L
+        zz = zlo + (zhi - zlo) * r.random() ** 2
+        th = r.uniform(0.15, math.pi / 2 - 0.15)
+        sk, sw = r.choice([-1, 1]), r.choice([-1, 1])
+
+        def q4(v, nz):
+            n = int(round(v * 16))
+            if nz and n == 0:
+                n = 1
+            return [n, -4]
+        if E == 'exp':
+            k, w = q4(sk * zz, True), [0, 0]
+        elif E in ('cos', 'sin'):
+            k, w = [0, 0], q4(sw * zz, True)
+        else:
+            k, w = q4(sk * zz * math.cos(th), True), q4(sw * zz * math.sin(th), True)
         desc['f'] = [{'fam': 'pe', 'E': E, 'c': cs, 'k': k, 'w': w, 'phi': rd(r, -3, 3, 3)}]
         desc['ivs'] = [[a, b]]
     elif fam == 'trigprod':
@@ -1247,6 +1278,18 @@ def gen_case(r, cell, p, idx):
     return desc
 
 
+# seed-independent regression witnesses (found by this check inside the envelope); run by shard 0 of every tier
+WITNESSES = [
+    {'prec': 150, 'rule': 'ts', 'api': 'string', 'form': 'mpf', 'cell': 'gauss/half', 'variants': [],
+     'f': [{'fam': 'gauss', 'cc': [15, -3], 'n': 0, 'm': [11, -3], 'w': [0, 0]}], 'ivs': [[[11, -3], 'inf']]},
+    {'prec': 113, 'rule': 'ts', 'api': 'string', 'form': 'mpf', 'cell': 'pe.exp/inf', 'variants': [],
+     'f': [{'fam': 'pe', 'E': 'exp', 'c': [[5, 0], [-4, 0], [4, 0]], 'k': [-19, -3], 'w': [0, 0], 'phi': [0, 0]}],
+     'ivs': [[[21, -3], 'inf']]},
+    {'prec': 53, 'rule': 'ts', 'api': 'string', 'form': 'mpf', 'cell': 'gauss/whole', 'variants': [],
+     'f': [{'fam': 'gauss', 'cc': [1, 0], 'n': 0, 'm': [0, 0], 'w': [0, 0]}], 'ivs': [['-inf', 'inf']]},
+]
+
+
 def run_any(mp, rec, desc, hook=None):
     if 'seq' in desc:
         for i, pp in enumerate(desc['seq']):
@@ -1298,10 +1341,14 @@ def run_shard(shard, rec):
         with AnchorCount(rec, anchors):
             idx = shard['shard'] * 5
             precs = shard['precs']
+            if shard['shard'] == 0:
+                for wdesc in WITNESSES:
+                    run_any(mp, rec, dict(wdesc), hook)
+                rec.event('fixed witnesses run', len(WITNESSES))
             n = shard['n']
             for pi, p in enumerate(precs):
                 # fewer cases at the expensive precisions
-                m = n if p <= 130 else (max(6, n // 3) if p <= 250 else max(4, n // 6))
+                m = n if p <= 130 else (max(6, n // 3) if p <= 250 else (max(4, n // 6) if p < 450 else max(3, n // 12)))
                 for j in range(m):
                     cell = CELLS[idx % len(CELLS)]
                     cap = HEAVY.get(cell)
